@@ -485,12 +485,16 @@ where
     // **note**: self.state can be modified to State::Finished
     fn resume_incomplete_search(&mut self, make_room: bool) -> Result<bool, Error> {
         loop {
-            if !make_room || self.buf_pos.start == 0 {
-                // first record -> buffer too small
-                self.grow()?;
-            } else {
-                // not the first record -> buffer may be big enough
-                self.make_room();
+            // (the buffer is not full if an earlier refill was interrupted by an
+            // I/O error: in this case, only the refill has to be completed)
+            if self.get_buf().len() == self.buf_reader.capacity() {
+                if !make_room || self.buf_pos.start == 0 {
+                    // first record -> buffer too small
+                    self.grow()?;
+                } else {
+                    // not the first record -> buffer may be big enough
+                    self.make_room();
+                }
             }
 
             // fill up remaining buffer
